@@ -16,10 +16,10 @@ theorem step?_sound (s t : St) (a : Label) (h : step? s a = some t) : Step s t :
     simp only [step?] at h; split at h <;> try contradiction
     rename_i w hw; split at h <;> try contradiction
     rename_i hc; cases h; exact Step.retPerErr s i w hw hc.1 hc.2.1 hc.2.2
-  | lock i =>
+  | lock i g =>
     simp only [step?] at h; split at h <;> try contradiction
     rename_i w hw; split at h <;> try contradiction
-    rename_i hc; cases h; exact Step.lock s i w hw hc.1 hc.2.1 hc.2.2
+    rename_i hc; cases h; exact Step.lock s i w g hw hc.1 hc.2.1 hc.2.2
   | hAcquire i =>
     simp only [step?] at h; split at h <;> try contradiction
     rename_i w hw; split at h <;> try contradiction
@@ -28,20 +28,20 @@ theorem step?_sound (s t : St) (a : Label) (h : step? s a = some t) : Step s t :
     simp only [step?] at h; split at h <;> try contradiction
     rename_i w hw; split at h <;> try contradiction
     rename_i hc; cases h; exact Step.hRelease s i w hw hc.1 hc.2
-  | flushOk j lim =>
+  | flushOk j free =>
     simp only [step?] at h; split at h <;> try contradiction
     rename_i l hl; split at h <;> try contradiction
-    rename_i m o hp; cases h; exact Step.flushOk s j l m o lim hl hp
+    rename_i m o hp; cases h; exact Step.flushOk s j l m o free hl hp
   | flushFail j =>
     simp only [step?] at h; split at h <;> try contradiction
     rename_i l hl; split at h <;> try contradiction
     rename_i m o hp; cases h; exact Step.flushFail s j l m o hl hp
-  | recvAccept i j =>
+  | recvAccept i j g =>
     simp only [step?] at h; split at h <;> try contradiction
     rename_i l w hl hw; split at h <;> try contradiction
     rename_i m hp; split at h <;> try contradiction
     rename_i hc; cases h
-    exact Step.recvAccept s i j w l m hl hw hp hc.1 hc.2.1 hc.2.2.1 hc.2.2.2.1 hc.2.2.2.2.1 hc.2.2.2.2.2
+    exact Step.recvAccept s i j w l m g hl hw hp hc.1 hc.2.1 hc.2.2.1 hc.2.2.2.1 hc.2.2.2.2.1 hc.2.2.2.2.2
   | reply i j =>
     simp only [step?] at h; split at h <;> try contradiction
     rename_i l w hl hw; split at h <;> try contradiction
@@ -73,7 +73,8 @@ theorem step?_sound (s t : St) (a : Label) (h : step? s a = some t) : Step s t :
   | publish j rot =>
     simp only [step?] at h; split at h <;> try contradiction
     rename_i l hl; split at h <;> try contradiction
-    rename_i m o hp; cases h; exact Step.publish s j l m o rot hl hp
+    rename_i m o hp; split at h <;> try contradiction
+    rename_i hrot; cases h; exact Step.publish s j l m o rot hl hp hrot
   | rotateOk j =>
     simp only [step?] at h; split at h <;> try contradiction
     rename_i l hl; split at h <;> try contradiction
@@ -88,16 +89,21 @@ theorem step?_sound (s t : St) (a : Label) (h : step? s a = some t) : Step s t :
     rename_i k r m o hp; split at h <;> try contradiction
     rename_i hc; cases h
     exact Step.ack s i j w l k m o r hl hw hp hc
-  | handoff i j =>
+  | handoff i j g =>
     simp only [step?] at h; split at h <;> try contradiction
     rename_i l w hl hw; split at h <;> try contradiction
     rename_i r m hp; split at h <;> try contradiction
     rename_i hc; cases h
-    exact Step.handoff s i j w l m r hl hw hp hc
+    exact Step.handoff s i j w l m r g hl hw hp hc.1 hc.2
   | release j =>
     simp only [step?] at h; split at h <;> try contradiction
     rename_i l hl; split at h <;> try contradiction
     rename_i r m hp; cases h; exact Step.release s j l m r hl hp
+  | releaseLost j =>
+    simp only [step?] at h; split at h <;> try contradiction
+    rename_i l hl; split at h <;> try contradiction
+    rename_i r m hp; split at h <;> try contradiction
+    rename_i hc; cases h; exact Step.releaseLost s j l m r hl hp hc.1 hc.2
 
 theorem run_sound (s t : St) (as : List Label) (h : run s as = some t) : Steps s t := by
   induction as generalizing s with
@@ -107,5 +113,13 @@ theorem run_sound (s t : St) (as : List Label) (h : run s as = some t) : Steps s
     split at h <;> try contradiction
     rename_i u hu
     exact Steps.trans (Steps.single (step?_sound s u a hu)) (ih u h)
+
+/-- the configuration never changes -/
+theorem step_cfg (s t : St) (h : Step s t) : t.cfg = s.cfg := by cases h <;> rfl
+
+theorem steps_cfg (s t : St) (h : Steps s t) : t.cfg = s.cfg := by
+  induction h with
+  | refl => rfl
+  | tail _ h ih => rw [step_cfg _ _ h, ih]
 
 end GoLevel.WP
